@@ -95,11 +95,29 @@ class LinEval:
                 return None
         return tot
 
+    def shift_mag(self, v):
+        """Magnitude of the individual shift contributions of a form (for a relative tolerance on cancellation)."""
+        if isinstance(v, tuple) and v and v[0] == 'some':
+            return self.shift_mag(v[1])
+        if not isinstance(v, Form):
+            return 0.0
+        tot = 0.0
+        for a, c in v.items():
+            if a == '1' or c == 0:
+                continue
+            if a == 'u' or (a.startswith('u') and a[1:].isdigit()):
+                tot += abs(c)
+            elif a.startswith('nl:') or a.startswith('u:'):
+                k_ = (self.nlreg or {}).get('shift', {}).get(a)
+                tot += abs(c * k_) if k_ is not None else 0.0
+        return tot
+
     def inv(self, *vs):
-        """0.0 if every operand is shift-invariant, else None (a non-linear function of a moving quantity is not affine in b)."""
+        """0.0 if every operand is shift-invariant, else None (a non-linear function of a moving quantity is not affine in b).
+        Cancellation is judged relative to the size of the cancelling contributions (rounding of the coefficients only)."""
         for v in vs:
             k_ = self.shift(v)
-            if k_ is None or abs(k_) > 1e-9:
+            if k_ is None or abs(k_) > 1e-9 * self.shift_mag(v):
                 return None
         return 0.0
 
@@ -107,7 +125,7 @@ class LinEval:
         ks = [self.shift(v) for v in vs]
         if any(k_ is None for k_ in ks):
             return None
-        if max(ks) - min(ks) > 1e-9:
+        if max(ks) - min(ks) > 1e-9 * max([self.shift_mag(v) for v in vs] + [0.0]):
             return None
         return ks[0]
 
@@ -437,8 +455,27 @@ class LinEval:
                     self.problems.append('%s(%s) is not finite' % (n, c))
                     return self.opaque(t, n)
             return self.opaque(t, n, self.inv(x))
-        if n in ('is_finite', 'is_nan'):
+        if n in ('is_finite', 'is_nan', 'is_infinite'):
+            # finite inputs are the domain: finiteness predicates on them are constants of the analysis
+            x = self.ev(a[0])
+            if isinstance(x, Form):
+                return {'is_finite': True, 'is_nan': False, 'is_infinite': False}[n]
             return None
+        if n in ('is_normal', 'is_sign_negative', 'is_sign_positive'):
+            # predicates that test the VALUE (zero / sign): data-dependent unless the operand is a constant
+            x = self.ev(a[0])
+            if isinstance(x, Form) and x.is_const():
+                c = x.const()
+                return {'is_normal': c != 0.0 and abs(c) >= 2.2250738585072014e-308, 'is_sign_negative': math.copysign(1.0, c) < 0,
+                        'is_sign_positive': math.copysign(1.0, c) > 0}[n]
+            if self.nlreg is not None and isinstance(x, Form) and self.inv(x) is None:
+                self.nlreg.setdefault('problems', []).append('predicate %s of a quantity that moves with a common offset of the inputs' % tstr(t)[:80])
+            return None
+        if n == 'mul_add' and len(a) == 3:
+            # a.mul_add(b, c) = a·b + c (one rounding instead of two: the same linear form)
+            return self.op(('op', 'add', (('op', 'mul', (a[0], a[1])), a[2])))
+        if n == 'recip' and len(a) == 1:
+            return self.op(('op', 'div', (('lit', 1.0, 'f'), a[0])))
         if n in ('max', 'min') and len(a) == 2:
             x, y = self.ev(a[0]), self.ev(a[1])
             return self.opaque(t, n, self.same_shift(x, y))
@@ -817,6 +854,7 @@ def transient(m, ctor, args, K, reg=None):
             problems.append('initial value of %s not evaluable' % cell)
     problems += ev0.problems
     outs = []
+    datadep_exit = False
     for k in range(K):
         ev = LinEval(state, m.up_vg.loops, nlreg=reg)
         if reg is not None:
@@ -871,7 +909,10 @@ def transient(m, ctor, args, K, reg=None):
         if not feas_exits:
             problems.append('step %d: no feasible exit' % k)
             break
-        if reg is None:
+        if reg is None and len(feas_exits) > 1:
+            # which exit is taken depends on the data: the view is not a fixed linear map of its inputs from here on
+            problems.append('step %d: the exit taken depends on the data (%s)' % (k, tstr(next((c for c in feas_exits[0].pc if isinstance(c, tuple) and c and c[0] != 'inloop' and ev.ev(c) is not True), ('?',)))[:80]))
+            datadep_exit = True
             feas_exits = feas_exits[:1]
         cand = []
         for ex in feas_exits:
@@ -904,6 +945,8 @@ def transient(m, ctor, args, K, reg=None):
         if out is not None and not isinstance(out, Form):
             out = 'nl'
         if isinstance(out, Form) and any(a.startswith('nl:') for a in out) and reg is None:
+            out = 'nl'
+        if datadep_exit and reg is None and out is not None:
             out = 'nl'
         if reg is not None and isinstance(out, Form):
             out = ('shift', ev2.shift(out), out)
